@@ -336,6 +336,12 @@ class StmtMixin:
                     raise Unsupported('dict store with symbolic key')
                 base[kc] = v
                 return
+            if isinstance(base, Obj):
+                ext = self.external_spec((['%s.__setitem__' % base.cls] if base.cls else []) + ['.__setitem__'], fr)
+                if ext is not None:
+                    idxs = list(idx) if isinstance(idx, tuple) else [idx]
+                    self.apply_external(ext, '.__setitem__', base, idxs + [v], {}, st, fr, None)
+                    return
             raise Unsupported('subscript store on %r' % (base,))
         raise Unsupported('assignment target %s' % type(target).__name__)
 
